@@ -657,7 +657,7 @@ func c06Rows(c *Ctx) {
 			}
 		}
 	}
-	per := c.Pick(2800, 120000)
+	per := c.Pick(7000, 120000)
 	c.Parallel(len(c06RowDecs)*per, 16, func(i int, r *Rng) {
 		d := &c06RowDecs[i%len(c06RowDecs)]
 		bs, class := c06GenRow(r, d)
